@@ -11,3 +11,4 @@ import ServlinVerif.Props.C14
 import ServlinVerif.Props.C20
 import ServlinVerif.Props.C16
 import ServlinVerif.Props.C07
+import ServlinVerif.Props.C01
